@@ -339,7 +339,17 @@ impl Prop for C05 {
                         Ans::Ok(s) => format!("Ok(value {})", s.value),
                         _ => got.to_string(),
                     };
-                    let sig = format!("{}:{}-vs-{}{}", w.name(), got, verdict_name(t), microlp_class(case, t, w, a));
+                    // Clarabel on an unbounded model sometimes stops at a point of astronomic size and
+                    // calls it solved (recorded finding): a value beyond 1e12 is that situation
+                    let astronomic = matches!((w, a, t), (Which::Clarabel, Ans::Ok(s), Verdict::Unbounded) if s.value.abs() >= 1e12);
+                    let sig = format!(
+                        "{}:{}-vs-{}{}{}",
+                        w.name(),
+                        got,
+                        verdict_name(t),
+                        microlp_class(case, t, w, a),
+                        if astronomic { ":astronomic-value" } else { "" }
+                    );
                     fails.push((
                         sig,
                         format!("{} answered {what}; exact verdict {}", w.name(), verdict_name(t)),
